@@ -46,6 +46,13 @@ def _leaves(prog, fn, os_, depth=0):
             for side in ("a", "b"):
                 if side in o.data and o.data[side].get("k") in ("cp", "mv"):
                     out.extend(_leaves(prog, fn, leaf_origins(prog, fn, o.data[side], at=o.block, terminal_only=True), depth + 1))
+        elif o.kind == "call" and depth < 6 and o.data.get("args") and (
+                (o.data.get("callee") or "") in ("core::convert::From::from", "core::convert::Into::into") or
+                ((o.data.get("callee") or "").startswith(("core::result::Result", "core::option::Option")) and (o.data.get("callee") or "").endswith("::map")
+                 and len(o.data["args"]) == 2 and isinstance(o.data["args"][1].get("v"), dict)
+                 and str(o.data["args"][1]["v"].get("fn", "")).endswith(("From::from", "Into::into")))):
+            # a widening conversion of the bytes read, also when mapped over the Result (`read_u8().map(u64::from)?`)
+            out.extend(_leaves(prog, fn, leaf_origins(prog, fn, o.data["args"][0], at=o.block, terminal_only=True), depth + 1))
         elif o.kind == "call" and (o.data.get("callee") or "").rsplit("::", 1)[-1] in ("deref", "as_ref", "as_slice", "borrow") and o.data.get("args") and depth < 6:
             out.extend(_leaves(prog, fn, leaf_origins(prog, fn, o.data["args"][0], at=o.block, terminal_only=True), depth + 1))
         else:
@@ -65,7 +72,8 @@ def check_vu64_decoder(ctx, prog, rule="vu64-reader-consumes-encoded-length"):
     fn = fs[0]
     ctx.touch(fn, len(fn.blocks))
     cn = k7.Canon(prog, fn)
-    calls = [(b, t) for b, t in fn.calls() if not fn.is_cleanup(b)]
+    from .util import assert_only_blocks
+    calls = [(b, t) for b, t in fn.calls() if not fn.is_cleanup(b) and b not in assert_only_blocks(fn)]
     reads = [(b, t) for b, t in calls if _mname(t) in FIXED or _mname(t) in VARLEN or _mname(t) in SLICE]
     dl = [(b, t) for b, t in calls if _mname(t) == "decoded_len"]
     dec = [(b, t) for b, t in calls if _mname(t).startswith("decode_with_first")]
@@ -92,7 +100,7 @@ def check_vu64_decoder(ctx, prog, rule="vu64-reader-consumes-encoded-length"):
     if len(dect["args"]) > 2:
         a2 = _leaves(prog, fn, leaf_origins(prog, fn, dect["args"][2], at=decb, terminal_only=True))
         fb = {b for b, t in follow}
-        ok_args = ok_args and bool(a2) and all((x.kind == "call" and x.block in fb) or (x.kind == "const" and x.data == 0) for x in a2)
+        ok_args = ok_args and bool(a2) and all((x.kind == "call" and x.block in fb) or (x.kind == "const" and (x.data == 0 or (isinstance(x.data, tuple) and x.data[:1] == ("fn",)))) for x in a2)
     ctx.check(ok_args, rule, "decode-args", "the decoder is not given (decoded_len(first), first, the follow bytes read)", where=where(fn, decb))
 
     def width_of(b, t, want):
